@@ -836,15 +836,19 @@ def ancestor_updates(run):
         return base, tenant, request
     texts = ["$threshold", "[1, 2, 3, 4].where($ > $threshold).toList()", "$limits.cpu - $.len()", "[$threshold, $t, $limits]", "$", "$.len() + $threshold"]
     for text in texts:
-        used, twin = chain(), chain()
+        used = chain()
         stmt = eng(text)
         data = [1, 2, 3]
+        updates = []
         for step, (nm, val) in enumerate([(None, None), ("threshold", 3), ("limits", {"cpu": 9}), ("threshold", None), ("$", [7])]):
-            for b, _, _ in (used, twin):
-                if nm == "$":
-                    eng("1").evaluate(data=val, context=b)
-                elif nm:
-                    b[nm] = val
+            updates.append((nm, val))
+            twin = chain()              # an identical chain nothing was ever evaluated on, brought to the same state by the host
+            for b, todo in ((used[0], [(nm, val)]), (twin[0], updates)):
+                for n2, v2 in todo:
+                    if n2 == "$":
+                        b["$"] = v2
+                    elif n2:
+                        b[n2] = v2
             outs = []
             for which, (b, t, r) in (("used", used), ("twin", twin)):
                 for via in (r, t):
